@@ -387,7 +387,7 @@ def _chunk(seeds):
             ext_types = [t for t in S["types"] if rnd.random() < 0.5 and not t["name"].startswith("__")]
             sdl_ext = sdl + "\ndirective @xnoop repeatable on OBJECT | INTERFACE | UNION | ENUM | INPUT_OBJECT | SCALAR\n" + \
                 "".join(f"\nextend {kw_of[t['kind']]} {t['name']} @xnoop" for t in ext_types) if not any(d["name"] == "xnoop" for d in S["directives"]) else sdl
-            for route in ("sdl", "sdl-assume-valid", "sdl-extended", "programmatic"):
+            for route in ("sdl", "sdl-assume-valid", "sdl-extended", "programmatic", "deepcopy"):
                 try:
                     if route == "sdl":
                         s = build_schema(sdl)
@@ -395,6 +395,9 @@ def _chunk(seeds):
                         s = build_schema(sdl_ext, assume_valid_sdl=True)
                     elif route == "sdl-assume-valid":
                         s = build_schema(sdl, assume_valid_sdl=True)
+                    elif route == "deepcopy":
+                        # a copy of a schema that has not been validated yet is not known to be valid either
+                        s = copy.deepcopy(build_schema(sdl, assume_valid_sdl=True) if sd % 2 else gs.to_objects(S))
                     else:
                         s = gs.to_objects(S)
                     builds.append((route, s))
